@@ -25,7 +25,7 @@ func init() {
 		Rule:        "Container puts with ContainerFee and ContainerAliasFee from {0,1,7,10^6} (changed by setConfig between puts), committees of 1/4/7, owner balance driven to {total-1,total,total+1,0,3*total,2^40} before each put, named and unnamed, owners who are Alphabet nodes themselves, repeated puts until the balance runs out; the multiset of TransferX events with container-fee details and the balance deltas from the Balance storage diff must equal N transfers of the fee; refusals must leave an empty diff. distinct = (operation, signer class, reason/outcome, liveness, fee, committee size).",
 		Assumptions: tb,
 		Batches:     tier(48, 768), Chunk: 4,
-		Floors: []string{"paid-put:N1", "paid-put:N4", "paid-put:N7", "paid-put:named", "paid-put:unnamed", "paid-put:fee0", "fee-changed-between-puts", "refused-at-total-1", "accepted-at-total", "put-refused:insufficient-balance", "puts-until-balance-runs-out"},
+		Floors: []string{"paid-put:N1", "paid-put:N4", "paid-put:N7", "paid-put:named", "paid-put:unnamed", "paid-put:fee0", "fee-changed-between-puts", "refused-at-total-1", "accepted-at-total", "put-refused:insufficient-balance", "puts-until-balance-runs-out", "paid-put:named-reusing-a-freed-domain"},
 		Run:    runC05,
 	})
 	runner.Register(&runner.Check{
